@@ -192,10 +192,12 @@ def history_strategy(max_ops=25):
         codes, ops = t
         out = []
 
-        def ev(ti, ci, q, words):
-            code = codes[ci % len(codes)]
+        def ev(ti, ci, q, words, code=None):
+            code = codes[ci % len(codes)] if code is None else code
             tid = TIDS[ti % len(TIDS)]
             name = code if isinstance(code, str) else None
+            if code == 'TRACE_DATA_THREAD_TERMINATE':       # the record names a (possibly different, possibly busy) thread
+                words = (words[0] if words[0] in TIDS else TIDS[words[0] % len(TIDS)],) + tuple(words[1:])
             data = domains.project(name, q, words) if name else b''.join(w.to_bytes(8, 'little') for w in words)
             out.append([tid, code, q, data])
         for kind, ti, a, b, q, seed in ops:
@@ -212,13 +214,15 @@ def history_strategy(max_ops=25):
                 ev(ti, a, 2, w1)
             elif kind == 5:      # same code on two threads
                 ev(ti, a, 1, w1); ev(ti + 1, a, 1, w2); ev(ti, a, 2, w3); ev(ti + 1, a, 2, w4)
+            elif kind == 7:      # another thread logs a terminate record naming a thread that is inside a call
+                ev(ti, a, 1, w1); ev(ti + 1, 0, q if q in (0, 3) else 0, (TIDS[ti % len(TIDS)],) + tuple(w2[1:]), code='TRACE_DATA_THREAD_TERMINATE'); ev(ti, a, 2, w3)
             elif kind == 6:      # window with a NONE inside
                 ev(ti, a, 1, w1); ev(ti, b, q if q in (0, 3) else 0, w2); ev(ti, a, 2, w3)
         return {'events': out[:60], 'prepopulated': bool(ops and ops[0][5] & 1)}
 
     code = st.one_of(st.sampled_from(ordinary), st.sampled_from(ordinary), st.sampled_from(trace),
                      st.sampled_from(undec), st.sampled_from(unknown))
-    op = st.tuples(st.sampled_from([0, 0, 0, 0, 1, 2, 3, 4, 5, 6]), st.integers(0, 2), st.integers(0, 11),
+    op = st.tuples(st.sampled_from([0, 0, 0, 0, 1, 2, 3, 4, 5, 6, 7]), st.integers(0, 2), st.integers(0, 11),
                    st.integers(0, 11), st.integers(0, 3), S.u64)
     return st.tuples(st.lists(code, min_size=2, max_size=12), st.lists(op, min_size=1, max_size=max_ops)).map(build)
 
